@@ -8,3 +8,9 @@ import LibfiveTheorems.C11
 #print axioms Libfive.C11.no_lost_task
 #print axioms Libfive.C11.worker_progress_partial
 #print axioms Libfive.C11.collect_reports_zero
+#print axioms Libfive.C11.cell_ownership
+#print axioms Libfive.C11.worker_measure_decreases
+#print axioms Libfive.C11.worker_steps_bounded
+#print axioms Libfive.C11.worker_deadlock_free
+#print axioms Libfive.C11.worker_progress
+#print axioms Libfive.C11.worker_can_finish
